@@ -71,6 +71,13 @@ The value behind the variable is not owned by the accessor object under test:
         noread=true (no read-back in the same step), so that write -> poke -> read is generated.
   op "refactor" assigns `var.od.factor` mid-history (the scaling factor of the variable is
         corrected by the application); later phys ops are judged against the factor current then.
+  flag "fault" on a set op (raw / phys / desc / bset): that one assignment FAILS - the device's application
+        refuses the write once (write callback raising SdoAbortedError; local and remote carrier), or one
+        frame of the SDO download is lost and the client times out (remote carrier: the initiate-download
+        request, or its confirmation).  Nothing is demanded of the failing step; the model takes what is
+        stored afterwards.  The application then (mostly) repeats the assignment through the same variable
+        object / the same kept Bits object: every assignment that RETURNS NORMALLY must have changed the
+        stored raw value as the statement says (family fault/*, Hypothesis kind "fault").
   op "phys_get" reads `var.phys` of whatever is stored (after a poke / refactor): must lie
         within half a step (+ float slack) of raw * factor.
 """
@@ -112,7 +119,12 @@ RULE = ("case = integer variable (type, factor, description table 1..20, bit def
         "when x is an int that is no double); |readback - x| <= |f|/2 + |f|*slack + 2^-53|raw*f|; phys_get: "
         "|y - raw*f| <= |f|/2 + float slack; a phys request whose nearest integer lies outside od.min/od.max "
         "must be stored as that nearest integer or be refused without writing (never silently another value); "
-        "desc/bits exact; stored bytes decoded by the harness. Non-trivial = a "
+        "desc/bits exact; stored bytes decoded by the harness. Flag fault on a set op: the assignment is carried "
+        "out while the device refuses the write once (write callback raising SdoAbortedError; local + remote "
+        "carrier) or while one frame of the SDO download is lost (initiate request / its confirmation; remote "
+        "carrier, client time-out); the failing step is not judged (model := what is stored afterwards), it is "
+        "followed by the identical assignment through the same variable / the same kept Bits object and by reads, "
+        "all judged as usual - an assignment that returns normally must have changed the stored bits. Non-trivial = a "
         "phys op with factor != 1, a desc op on a table of >= 2 entries, or a bit op with lo > 0 and "
         "hi > lo; distinct = canonical JSON of the case.")
 ASSUMPTIONS = [
@@ -124,7 +136,11 @@ ASSUMPTIONS = [
     "(fields including it are only read)",
     "'refused' (unknown description text, value without description) accepts any exception type",
     "a Bits object is a snapshot: it is only reused across consecutive bit assignments, never across "
-    "other writes",
+    "other writes; after an assignment through it has raised it is only used to repeat that very assignment "
+    "(same range, same value, any spelling) - anything else starts from a fresh var.bits",
+    "nothing is demanded of an assignment that raises because the device refused the write or a frame was lost "
+    "(the stored value afterwards is taken as it is); a LocalNode write callback raising SdoAbortedError is the "
+    "documented way for a device application to refuse a write",
     "description texts are non-empty and distinct, described values distinct and inside the type's range",
     "the stored value (LocalNode.data_store / the SDO server's store / PdoMap.data) is THE raw value: it may be "
     "changed by another accessor object, the application or a received PDO at any time between two operations",
@@ -149,6 +165,9 @@ SPELLINGS = ("int", "list", "list_rev", "list_rot", "slice", "slice0", "slice1",
 PDO_SIDES = ("tpdo", "rpdo", "rx_tpdo", "rx_rpdo")
 ROUTES = ("accessor", "backdoor", "rx")
 SET_KINDS = ("raw", "phys", "desc", "bset")
+FAULTS = ("refuse", "lost_req", "lost_resp")      # see op flag "fault"
+FAULT_CARRIERS = {"refuse": ("local", "remote"), "lost_req": ("remote",), "lost_resp": ("remote",)}
+REFUSE_CODE = 0x08000022        # "data cannot be transferred or stored because of the present device state"
 
 
 # ---- small helpers ---------------------------------------------------------------
@@ -275,6 +294,13 @@ def domain(case):
         k = op["op"]
         if limits and k not in ("raw", "poke", "phys", "phys_get"):
             return "limits: only raw / phys histories are judged with od.min / od.max set"
+        if op.get("fault") is not None:
+            if op["fault"] not in FAULTS or k not in SET_KINDS:
+                return "generator error: fault flag on an op that does not assign / unknown fault"
+            if limits:
+                return "limits: histories with a failing assignment are not generated with od.min / od.max set"
+            if any(c not in FAULT_CARRIERS[op["fault"]] for c in case["carriers"]):
+                return "this way for an assignment to fail does not exist on one of the case's carriers"
         if k in ("raw", "poke"):
             if not lo_v <= op["v"] <= hi_v:
                 return "raw value outside the type's range"
@@ -372,7 +398,34 @@ class _Local:
         self.node = canopen.LocalNode(NODE, build_od(od_spec(case)))
         self.index, self.sub = _addr(case)
         self.accessor = self.node.sdo
+        self._device(case, self.node)
         self._finish()
+
+    def _device(self, case, device):
+        """The device's application may refuse a write (write callback raising SdoAbortedError - the
+        documented way for a LocalNode application).  Installed only for histories that use it."""
+        self.refuse = [False]
+        self.fired = False
+        if not any(op.get("fault") for op in case["ops"]):
+            return
+        from canopen import SdoAbortedError
+
+        def on_write(index, subindex, od, data, **kw):
+            if self.refuse[0] and (index, subindex) == (self.index, self.sub):
+                self.refuse[0] = False
+                self.fired = True
+                raise SdoAbortedError(REFUSE_CODE)
+        device.add_write_callback(on_write)
+
+    def arm(self, fault):
+        """The next write of the entry under test fails in the given way (once)."""
+        self.fired = False
+        if fault != "refuse":
+            raise ValueError(f"generator error: fault {fault} on this carrier")
+        self.refuse[0] = True
+
+    def disarm(self):
+        self.refuse[0] = False
 
     def _finish(self):
         self.var = self.fresh()
@@ -423,7 +476,29 @@ class _Remote(_Local):
         self.node.sdo.RESPONSE_TIMEOUT = 0.05
         self.index, self.sub = _addr(case)
         self.accessor = self.node.sdo
+        self._device(case, self.server)
         self._finish()
+
+    def arm(self, fault):
+        self.fired = False
+        if fault == "refuse":
+            self.refuse[0] = True
+            return
+        # one frame of the download is lost on the bus (once): the client's initiate-download request
+        # (ccs 1), or the server's confirmation of it (scs 3)
+        can_id, cs = (0x600 + NODE, 1) if fault == "lost_req" else (0x580 + NODE, 3)
+
+        def lose(fr, hub):
+            if hub.filter is lose and fr.can_id == can_id and len(fr.data) == 8 and fr.data[0] >> 5 == cs:
+                hub.filter = None
+                self.fired = True
+                return []
+            return [fr]
+        self.hub.filter = lose
+
+    def disarm(self):
+        self.refuse[0] = False
+        self.hub.filter = None
 
     def poke(self, route, value, data):
         if route == "accessor":
@@ -559,6 +634,7 @@ def _run_on(cname, case, D):
     var = car.var
     U = None                    # model: bit pattern of the stored raw value
     held = None
+    pending = None              # (kind, lo, hi, v) of a bit assignment through a kept view that has just raised
     obs = []
     if case.get("sibling"):
         # another variable of the application (another object, another device profile) defines fields with the
@@ -602,6 +678,17 @@ def _run_on(cname, case, D):
             return False
         return True
 
+    def failed(tag):
+        """A set op carried out while the device refuses / a frame of the download is lost has raised:
+        nothing is demanded of that step.  The model takes whatever is stored now (nothing, or the
+        whole value when only the confirmation was lost); the ops that follow are judged as ever."""
+        nonlocal U
+        got = stored(tag + " (assignment failed)")
+        if got is None:
+            return False
+        U = got
+        return True
+
     first = {"op": "raw", "v": case["init"]}
     if case.get("init_via"):
         first["via"] = case["init_via"]
@@ -612,14 +699,33 @@ def _run_on(cname, case, D):
         ret = None
         api = op.get("api", "attr")
         noread = bool(op.get("noread"))
+        fault = op.get("fault")
         if kind not in ("bset", "bget"):
             held = None
+        if held is not None and pending is not None and (kind, op["lo"], op["hi"], op.get("v")) != pending:
+            held = None         # after a failed assignment a kept view is only used to repeat that assignment
+        pending = None
+
+        def _set(fn):
+            """Run an assigning call - under the step's fault, if it has one."""
+            if not fault:
+                return _call(fn)
+            car.arm(fault)
+            try:
+                return _call(fn)
+            finally:
+                car.disarm()
 
         if kind == "raw":
             # via=data: the same value written as bytes through the variable's data attribute;
             # via=rx: it arrives in a frame (PDO carrier, receive direction; elsewhere like attr)
             raw_bytes = _pat(dt, op["v"]).to_bytes(nbytes, "little")
-            ok, r = _call(lambda: car.set_raw(var, op["v"], raw_bytes, op.get("via")))
+            ok, r = _set(lambda: car.set_raw(var, op["v"], raw_bytes, op.get("via")))
+            if not ok and fault and car.fired:
+                if not failed(tag):
+                    break
+                obs.append((k, U, "failed"))
+                continue
             if not ok:
                 bad("raw/raises", f"{tag}: {_exc(r)}")
                 break
@@ -682,9 +788,14 @@ def _run_on(cname, case, D):
             tol = phys_tol(x, q)
             outside = bool(limits) and not (limits[0] <= _ceil(q - tol) and _floor(q + tol) <= limits[1])
             if api == "rw":
-                ok, r = _call(lambda: var.write(x, fmt="phys"))
+                ok, r = _set(lambda: var.write(x, fmt="phys"))
             else:
-                ok, r = _call(lambda: setattr(var, "phys", x))
+                ok, r = _set(lambda: setattr(var, "phys", x))
+            if not ok and fault and car.fired:
+                if not failed(tag):
+                    break
+                obs.append((k, U, "failed"))
+                continue
             if not ok and outside:
                 # beyond od.min / od.max: refusing is as good as storing, as long as nothing is written
                 if not expect_stored(tag + " (refused, outside min/max)", "phys/refused-wrote"):
@@ -722,9 +833,14 @@ def _run_on(cname, case, D):
         elif kind == "desc":
             text = op["text"]
             if api == "rw":
-                ok, r = _call(lambda: var.write(text, fmt="desc"))
+                ok, r = _set(lambda: var.write(text, fmt="desc"))
             else:
-                ok, r = _call(lambda: setattr(var, "desc", text))
+                ok, r = _set(lambda: setattr(var, "desc", text))
+            if not ok and fault and car.fired and text in by_text:
+                if not failed(tag):
+                    break
+                obs.append((k, U, "failed"))
+                continue
             if text in by_text:
                 if not ok:
                     bad("desc/set-raises", f"{tag}: {_exc(r)}")
@@ -800,7 +916,13 @@ def _run_on(cname, case, D):
                 held = bits if hold else None
             if kind == "bset":
                 v = op["v"]
-                ok, r = _call(lambda: bits.__setitem__(_key(op), v))
+                ok, r = _set(lambda: bits.__setitem__(_key(op), v))
+                if not ok and fault and car.fired:
+                    if not failed(tag):
+                        break
+                    pending = ("bset", lo, hi, v)
+                    obs.append((k, U, "failed"))
+                    continue
                 if not ok:
                     bad(f"bits/{sp}/set-raises", f"{tag}: {_exc(r)}")
                     break
@@ -888,6 +1010,8 @@ def classify(case):
         k = op["op"]
         if op.get("noread"):
             tags.add("noread")
+        if op.get("fault"):
+            tags.add("fault-" + op["fault"])
         if rx_side and (op.get("via") == "rx" or op.get("route") == "rx"):
             tags.add("rx")
         if k in ("phys", "phys_get"):
@@ -1430,6 +1554,79 @@ def bitdef_cases(thorough):
                             factor=(0.1, 1, -2, 0.25)[i % 4])
 
 
+def fault_cases(thorough):
+    """An assignment fails - the device refuses the write once (its application raises SdoAbortedError from a
+    write callback), or one frame of the SDO download is lost and the client times out - and the application
+    repeats it, through the same variable object / the same kept Bits object.  The failing step is not judged;
+    every assignment that returns normally is, like anywhere else."""
+    i = 0
+    for ti, dt in enumerate(INT_TYPES):
+        lo_v, hi_v = rc.int_range(dt)
+        full = (1 << _w(dt)) - 1
+        usable = min(32, _usable(dt))
+        for rep in range(6 if thorough else 1):
+            for fi, fault in enumerate(FAULTS):
+                i += 1
+                carriers = list(FAULT_CARRIERS[fault])
+                lost = fault != "refuse"
+                descs = default_descs(dt, 4, salt=i)
+                vals = [v for v, _ in descs]
+                texts = [t for _, t in descs]
+                a, b = (i + rep) % 4, (i + rep + 1 + fi) % 4
+                if a == b:
+                    b = (a + 1) % 4
+                api = "rw" if i % 3 == 0 else "attr"
+                # -- bit fields, every spelling in turn, through a kept view and through fresh ones
+                lo = (i * 5 + rep) % max(1, usable - 3)
+                hi = min(usable - 1, lo + (i + rep) % 4)
+                n = hi - lo + 1
+                ones = (1 << n) - 1
+                sps = [sp for sp in SPELLINGS if domain({"dt": dt, "factor": 1, "init": 0, "carriers": [], "ops": [
+                    {"op": "bget", "sp": sp, "lo": lo, "hi": hi}]}) is None]
+                u0 = _mix(i, lo, hi, 11) & full
+                for h, hold in enumerate((True, False)):
+                    if lost and not thorough and h != (ti + fi) % 2:
+                        continue                    # a lost frame costs a time-out: half of them in the quick tier
+                    sp = sps[(i + h) % len(sps)]
+                    sp2 = sps[(i + h + 1) % len(sps)]
+                    v = (((u0 >> lo) & ones) ^ (1 + _mix(i, h) % ones)) if ones > 1 else ((u0 >> lo) & 1) ^ 1
+                    w = v ^ ones if v ^ ones != (u0 >> lo) & ones else v ^ 1
+                    w &= ones
+                    ops = [{"op": "bset", "sp": sp, "lo": lo, "hi": hi, "v": v, "fault": fault},
+                           {"op": "bset", "sp": sp, "lo": lo, "hi": hi, "v": v},
+                           {"op": "bget", "sp": sp2, "lo": lo, "hi": hi},
+                           {"op": "bset", "sp": sp, "lo": lo, "hi": hi, "v": w},
+                           {"op": "bset", "sp": sp2, "lo": lo, "hi": hi, "v": v, "fault": fault, "noread": True},
+                           {"op": "bset", "sp": sp, "lo": lo, "hi": hi, "v": v, "noread": True},
+                           {"op": "bget", "sp": "list", "lo": lo, "hi": hi}]
+                    if lost and not thorough:
+                        del ops[3:6]
+                    yield base_case(dt, ops, init=_val(dt, u0), salt=i + h, hold=hold, carriers=carriers,
+                                    factor=(0.1, 1, -2, 0.25)[i % 4])
+                if lost and not thorough and (ti + fi) % 3:
+                    continue
+                # -- descriptions
+                yield base_case(dt, [{"op": "desc", "text": texts[a], "fault": fault, "api": api},
+                                     {"op": "desc", "text": texts[a], "api": api},
+                                     {"op": "raw", "v": vals[b]},
+                                     {"op": "desc", "text": texts[a], "fault": fault, "noread": True},
+                                     {"op": "desc_get", "api": api},
+                                     {"op": "desc", "text": texts[a], "noread": True},
+                                     {"op": "desc_get"}][:3 if lost and not thorough else None],
+                                init=vals[b], descs=descs, salt=i + 2, carriers=carriers,
+                                factor=(1, 0.5, -3, 1e-3)[i % 4])
+                # -- physical and raw values
+                factor = (0.1, -2, 0.25, 3, 1, 1e-3)[(i + rep) % 6]
+                x1 = phys_request(dt, factor, 50 + rep, Fraction(1, 4), as_int=False)
+                if x1 is not None:
+                    yield base_case(dt, [{"op": "phys", "x": x1, "fault": fault, "api": api},
+                                         {"op": "phys", "x": x1, "api": api},
+                                         {"op": "raw", "v": 7, "fault": fault},
+                                         {"op": "raw", "v": 7},
+                                         {"op": "phys_get"}][:2 if lost and not thorough else None],
+                                    init=3, salt=i + 3, factor=factor, carriers=carriers)
+
+
 # -- Hypothesis: mixed histories ------------------------------------------------------------------
 def _raw_strategy(dt):
     lo, hi = rc.int_range(dt)
@@ -1470,6 +1667,7 @@ def mixed_case(draw, kinds):
     cur = factor                # the factor current at this point of the history
     custom = {}                 # names defined by "bitdef" ops so far
     last_set = None
+    fault_kind = None           # one way of failing per history (it decides the carriers)
     for _ in range(draw(st.integers(1, 8))):
         kind = draw(st.sampled_from(kinds))
         if kind == "raw":
@@ -1490,6 +1688,19 @@ def mixed_case(draw, kinds):
                 ops.append({"op": "desc_get"})
             elif follow == 4:
                 ops.append({"op": "phys_get", "api": draw(st.sampled_from(["attr", "rw"]))})
+        elif kind == "fault":
+            # an assignment fails (device refuses / frame lost) and is (mostly) repeated as it is
+            if last_set is None or draw(st.integers(0, 2)) == 0:
+                a = draw(st.integers(0, usable - 1))
+                b = draw(st.integers(a, min(usable - 1, a + 4)))
+                last_set = {"op": "bset", "sp": draw(st.sampled_from(["list", "slice", "name"])), "lo": a, "hi": b,
+                            "v": draw(st.integers(0, (1 << (b - a + 1)) - 1))}
+            if last_set.get("via") == "rx":
+                last_set = dict(last_set, via=None)
+            fault_kind = fault_kind or draw(st.sampled_from(["refuse", "refuse", "refuse", "lost_req", "lost_resp"]))
+            ops.append(dict(last_set, fault=fault_kind))
+            for _ in range(draw(st.sampled_from([0, 1, 1, 1, 2]))):
+                ops.append(dict(last_set))
         elif kind == "refactor":
             cur = draw(_factor_strategy())
             ops.append({"op": "refactor", "factor": cur})
@@ -1593,6 +1804,10 @@ def mixed_case(draw, kinds):
         ops.append({"op": "bget", "sp": "list", "lo": 0, "hi": usable - 1})
     carriers = draw(st.sampled_from([["local"], ["remote"], ["pdo"], ["local", "remote", "pdo"],
                                      ["pdo", "local"], ["remote", "pdo"]]))
+    if fault_kind == "refuse":
+        carriers = draw(st.sampled_from([["local"], ["remote"], ["local", "remote"]]))
+    elif fault_kind:
+        carriers = ["remote"]
     room = (64 - _w(dt)) // 8
     ndec = draw(st.integers(0, 2))
     decoys = []
@@ -1616,13 +1831,14 @@ def _showcase():
         for case in islice(gen, 40, 400, 170):
             yield case
     for gen in (exact_phys_cases(False), limits_cases(False), poke_cases(False), refactor_cases(False),
-                bitdef_cases(False)):
+                bitdef_cases(False), fault_cases(False)):
         for case in islice(gen, 1, 30, 11):
             yield case
 
 
 ALL_KINDS = ["raw", "phys", "phys", "desc", "desc", "desc_get", "bset", "bset", "bget"]
 EDIT_KINDS = ALL_KINDS + ["poke", "poke", "poke", "refactor", "bitdef", "bitdef", "phys_get"]
+FAULT_KINDS = ["raw", "phys", "desc", "desc_get", "bset", "bset", "bget", "fault", "fault", "fault", "poke", "bitdef"]
 
 
 def search(ctx):
@@ -1631,6 +1847,8 @@ def search(ctx):
     ctx.enumerate(_showcase())
     ctx.enumerate(poke_cases(thorough), "out-of-band change of the stored value (3 routes) x views x types, then "
                                         "reads and identical repeated sets")
+    ctx.enumerate(fault_cases(thorough), "an assignment fails (device refuses the write / download request lost / "
+                                         "confirmation lost) and is repeated: views x types, kept and fresh Bits")
     ctx.enumerate(refactor_cases(thorough), "od.factor assigned mid-history: 12 factor pairs x types")
     ctx.enumerate(bitdef_cases(thorough), "add_bit_definition after first use (new name / moved name) x types")
     ctx.enumerate(exact_phys_cases(thorough), "exact multiples of power-of-two factors, |x/f| in 2^51..2^53, "
@@ -1648,3 +1866,4 @@ def search(ctx):
                    salt=2)
     ctx.hypothesis(mixed_case(["bset", "bget", "bset", "raw", "bitdef", "poke"]), 2000 if thorough else 250, salt=3)
     ctx.hypothesis(mixed_case(EDIT_KINDS), 3000 if thorough else 400, salt=4)
+    ctx.hypothesis(mixed_case(FAULT_KINDS), 1000 if thorough else 120, salt=5)
